@@ -39,6 +39,18 @@ type fakePeer struct {
 	live     []net.Conn
 }
 
+// finAll closes every connection the peer holds in an orderly way (FIN), as a process that exits
+// or a peer that restarts does.
+func (p *fakePeer) finAll() {
+	p.mu.Lock()
+	cs := p.live
+	p.live = nil
+	p.mu.Unlock()
+	for _, c := range cs {
+		c.Close()
+	}
+}
+
 // resetAll resets (RST) every connection the peer holds.
 func (p *fakePeer) resetAll() {
 	p.mu.Lock()
@@ -235,7 +247,10 @@ func rmScenario(name string) (string, string) {
 				worst = d
 			}
 		}
-		time.Sleep(150 * time.Millisecond)
+		for w := time.Now().Add(2 * time.Second); time.Now().Before(w) && len(lg.deadSeqs()) < 3; {
+			time.Sleep(5 * time.Millisecond)
+		}
+		time.Sleep(50 * time.Millisecond)
 		d := lg.deadSeqs()
 		rmDetail = fmt.Sprintf("dead=%v worst=%v", d, worst.Round(10*time.Millisecond))
 		if len(d) != 3 || subsequenceNoDup(d, 3) != "" {
@@ -249,6 +264,9 @@ func rmScenario(name string) (string, string) {
 	case strings.HasPrefix(name, "recover"):
 		// peer unreachable, then it appears: later messages are delivered
 		tell(0)
+		for w := time.Now().Add(2 * time.Second); time.Now().Before(w) && len(lg.deadSeqs()) == 0; {
+			time.Sleep(5 * time.Millisecond) // sending is asynchronous: wait until message 0 has used up its budget
+		}
 		p, err := newFakePeer(peerAddr)
 		if err != nil {
 			return "", ""
@@ -452,6 +470,12 @@ func (e *sendloopEngine) Exec(line string) (string, string) {
 			time.Sleep(20 * time.Millisecond)
 		}
 		return "ok", ""
+	case "fin":
+		if e.peer != nil {
+			e.peer.finAll()
+			time.Sleep(30 * time.Millisecond)
+		}
+		return "ok", ""
 	case "tell":
 		if len(tk) != 2 || e.sys == nil {
 			return "bad-op", ""
@@ -460,7 +484,7 @@ func (e *sendloopEngine) Exec(line string) (string, string) {
 		fmt.Sscan(tk[1], &seq)
 		e.sys.Tell(e.target, &fbMsg{Seq: seq, Pad: []byte{byte(seq)}})
 		// the dead letter goes through the guard actor; the frame through the loopback
-		deadline := time.Now().Add(300 * time.Millisecond)
+		deadline := time.Now().Add(1500 * time.Millisecond)
 		for time.Now().Before(deadline) {
 			e.collect()
 			if containsSeq(e.got, seq) || containsSeq(e.lg.deadSeqs(), seq) {
@@ -528,12 +552,13 @@ func (e *sendloopEngine) Generate(c *Ctx) {
 		emit(limit, []string{"up", "tell", "break", "tell", "tell", "tell"})
 		emit(limit, []string{"up", "tell", "down", "tell", "up", "tell", "tell"})
 		emit(limit, []string{"up", "tell", "break", "break", "tell", "down", "up", "tell"})
+		emit(limit, []string{"up", "tell", "fin", "tell", "tell", "fin", "tell"})
 	}
 	n := 6
 	if c.Tier == "thorough" {
 		n = 40
 	}
-	kinds := []string{"tell", "tell", "tell", "up", "down", "break"}
+	kinds := []string{"tell", "tell", "tell", "up", "down", "break", "fin"}
 	for i := 0; i < n; i++ {
 		limit := c.Rng.Intn(3)
 		var ops []string
